@@ -771,10 +771,7 @@ func (tc *typechecker) typeof(expr ast.Expression, typeExpected bool) *typeInfo 
 		if typ.Type.Kind() != reflect.Interface && !types.Implements(typ.Type, t.Type) {
 			panic(tc.errorf(expr, "%s", tc.errTypeAssertion(typ.Type, t.Type)))
 		}
-		return &typeInfo{
-			Type:       typ.Type,
-			Properties: t.Properties & propertyAddressable,
-		}
+		return &typeInfo{Type: typ.Type}
 
 	}
 
